@@ -44,6 +44,9 @@ def run(ctx) -> None:
     ctx.guard("C20.naming-guards", composition_always)
     ctx.guard("C20.trough-args", trough_args)
     from .common import truthiness_rule
+    from . import objmodel
+
+    ctx.guard("C20.guard-table", objmodel.labware_model, "C20.guard-table")
 
     ctx.guard("C20.trough-args", truthiness_rule, "C20.trough-args", ("Trough.__init__", "Labware.__init__"), ("initial_volumes",),
               "0, an empty list and a one-element zero array are all treated like 'not given' (a per-column list of the wrong length is accepted and broadcast), and an array with several elements raises 'truth value is ambiguous'")
@@ -141,6 +144,30 @@ def guard_table(ctx) -> None:
     # (a guard that also turns away exactly 26 rows refuses a labware that the 26 row letters can represent)
     r26_strict = any(only(t, lambda a: cmp_is(a, Cmp(P("rows") - Poly.const(26), ">="), Cmp(P("rows") - Poly.const(25), ">"))) and c == "ValueError" for t, n, c in terms)
     v26_strict = any(only(t, lambda a: cmp_is(a, Cmp(P("virtual_rows") - Poly.const(26), ">="), Cmp(P("virtual_rows") - Poly.const(25), ">")), allow=(lambda a: _is_not_none(a, "virtual_rows"),)) and c == "ValueError" for t, n, c in terms)
+    def fires(term, env) -> bool:
+        """every atom of the raising term can be evaluated for the given rows / virtual_rows and holds"""
+        for a in term:
+            names = {x.id for x in ast.walk(a.expr) if isinstance(x, ast.Name)}
+            if not names <= {"rows", "virtual_rows", "columns", "isinstance", "int"} or any(isinstance(x, (ast.Call, ast.Attribute, ast.Subscript)) and not (
+                    isinstance(x, ast.Call) and call_fname(x) == "isinstance") for x in ast.walk(a.expr)):
+                return False
+            try:
+                val = eval(compile(ast.fix_missing_locations(ast.Expression(body=a.expr)), "<guard>", "eval"), {"__builtins__": {"isinstance": isinstance, "int": int}}, dict(env))
+            except Exception:
+                return False
+            if bool(val) != a.pol:
+                return False
+        return True
+
+    def covered(samples) -> bool:
+        return all(any(c == "ValueError" and fires(t, env) for t, n, c in terms) for env in samples)
+
+    if not r26 and not r26_strict:
+        # the same rejection spread over the plate / trough branches of a nested test: decided on sample geometries
+        r26 = covered([dict(rows=r_, virtual_rows=v_, columns=1) for r_ in (27, 1000) for v_ in (None, 1, 5, 26, 27)]) and not any(
+            fires(t, dict(rows=26, virtual_rows=None, columns=1)) for t, n, c in terms)
+    if not v26 and not v26_strict:
+        v26 = covered([dict(rows=1, virtual_rows=v_, columns=1) for v_ in (27, 1000)]) and not any(fires(t, dict(rows=1, virtual_rows=26, columns=1)) for t, n, c in terms)
     reqs.append(("rows-exceed-letters", "more rows than row letters raises ValueError", r26,
                  "the guard on the number of rows is `rows >= 26`: a labware with exactly 26 rows (A..Z) is refused" if r26_strict else
                  "no guard rejects every labware with rows > 26: the alphabet slice silently truncates the IDs (wells 26xC vs volumes RxC)"))
@@ -396,6 +423,26 @@ def trough_args(ctx) -> None:
                 detail = f"initial_volumes is broadcast to all columns whenever `{stmt_key(t)[:60]}`: one-element per-column lists (wrong length) are silently accepted"
         elif is_rep:
             detail = "scalar broadcast is not guarded by a scalar type test"
+    if not ok_bc and iv is not None and detail.startswith("no scalar broadcast"):
+        # the same dispatch through a temporary (an expanded helper): the values that reach the base constructor, with their conditions
+        SCALAR = {"int", "float", "numbers.Number", "numbers.Real", "np.integer", "np.floating", "numpy.integer", "numpy.floating", "np.number", "numpy.number"}
+        reps = plain = 0
+        good = True
+        for conds, val in fv.alternatives(iv, sup[0].node):
+            v_ = strip_norm(val)
+            is_rep = isinstance(v_, ast.BinOp) and isinstance(v_.op, ast.Mult) and any(isinstance(s_, ast.List) and len(s_.elts) == 1 and is_name(strip_norm(s_.elts[0]), "initial_volumes") for s_ in (v_.left, v_.right)) \
+                and any(is_name(s_, "columns") for s_ in (v_.left, v_.right))
+            inst = [(r_, p_) for r_, p_ in conds if isinstance(r_, ast.Call) and call_fname(r_) == "isinstance" and len(r_.args) == 2 and is_name(strip_norm(r_.args[0]), "initial_volumes")]
+            if is_rep:
+                reps += 1
+                good = good and len(inst) == 1 and inst[0][1] and {show(x) for x in (inst[0][0].args[1].elts if isinstance(inst[0][0].args[1], ast.Tuple) else [inst[0][0].args[1]])} <= SCALAR
+            elif is_name(v_, "initial_volumes"):
+                plain += 1
+                good = good and len(inst) == 1 and not inst[0][1]
+            else:
+                good = False
+        if reps == 1 and plain == 1 and good:
+            ok_bc = True
     ctx.rep.check(ok_bc, rule, f"{f.qualname}/scalar-broadcast", "only true scalars are broadcast to all columns", detail, where=f.where())
     names = [cs for cs in fv.calls() if cs.callee.kind == "func" and cs.callee.func.name == "get_trough_component_names"]
     ok_n = False
